@@ -355,6 +355,11 @@ def check_eval_and_spider(ctx):
     zero = any(isinstance(s, ast.Assign) and ast.unparse(s.value) == "numpy.zeros(dom @ cod)" for s in sp.body)
     ctx.ob("R09.4", TEN + ".Spider.__init__:delta", ok and zero, found=ast.unparse(loop)[:120] if loop else None,
            required="zeros(dom @ cod) with exactly the all-equal index entries set to 1", mod=TEN, node=sp, sig="spider-delta")
+    tm = m.func(TEN + ".Tensor.map")
+    ctx.analysed(TEN + ".Tensor.map")
+    shape.match(ctx, "R09.2", TEN + ".Tensor.map", ret_expr(tm.body), ["Tensor(self.dom, self.cod, list(map(func, self.array.flatten())))", "Tensor(self.dom, self.cod, [func(x) for x in self.array.flatten()])"],
+                {tm.args.args[1].arg: "func"}, mod=TEN, node=tm, sig="tensor-map", required="a new tensor of the same type whose entries are the function's values as they are (a bubble is its function applied entry by entry: no cast to the "
+                "type of the old entries)")
     tz = m.func(TEN + ".Tensor.zeros")
     ctx.analysed(TEN + ".Tensor.zeros")
     shape.match(ctx, "R09.2", TEN + ".Tensor.zeros", ret_expr(tz.body), "Tensor(dom, cod, Tensor.np.zeros(dom @ cod))", dict(zip([x.arg for x in tz.args.args], ("dom", "cod"))), mod=TEN, node=tz, sig="zeros",
